@@ -35,4 +35,50 @@ theorem Basic.stateValidInt {h : Nat → Nat} {t : Table} (hb : Basic h t) :
   simp only [hm, hp, if_true, decide_eq_true_eq, ite10_ne]
   exact ⟨⟨⟨⟨h2, by decide⟩, hb.load⟩, hb.maxLt⟩, hb.mask⟩
 
+/-! ### `aws_hash_iter_is_valid` -/
+
+/-- `enum aws_hash_iter_status` -/
+def statusCode : IterStatus → Nat
+  | .done => 0
+  | .deleteCalled => 1
+  | .ready => 2
+
+/-- what `s_get_next_element` returns: the limit is unchanged, and the iterator is DONE at `slot = limit` or READY at an
+occupied slot strictly below the limit -/
+theorem getNextLoop_valid (s : Slots) (it : Iter) : ∀ fuel i,
+    (getNextLoop s it fuel i).limit = it.limit ∧
+    (((getNextLoop s it fuel i).status = .done ∧ (getNextLoop s it fuel i).slot = it.limit) ∨
+     ((getNextLoop s it fuel i).status = .ready ∧ (getNextLoop s it fuel i).slot < it.limit ∧
+        (rd s (getNextLoop s it fuel i).slot).isSome = true)) := by
+  intro fuel
+  induction fuel with
+  | zero => intro i; exact ⟨rfl, Or.inl ⟨rfl, rfl⟩⟩
+  | succ f ih =>
+    intro i
+    unfold getNextLoop
+    split
+    · next hlt =>
+      cases hr : rd s i with
+      | none => simp only; exact ih _
+      | some e => simp [hlt, hr]
+    · exact ⟨rfl, Or.inl ⟨rfl, rfl⟩⟩
+
+/-- the translated `aws_hash_iter_is_valid` tail accepts every iterator `s_get_next_element` produces from an iterator whose
+limit is within the table (`slotHash`: any value that is non-zero exactly on occupied slots, as `hash_code` is) -/
+theorem getNext_iterValid (t : Table) (it : Iter) (start : Nat) (hl : it.limit ≤ t.size) (slotHash : Nat → Nat)
+    (hh : ∀ i, slotHash i ≠ 0 ↔ (rd t.slots i).isSome = true) :
+    HashValid.iterValidInt (getNext t it start).limit t.size (statusCode (getNext t it start).status)
+      (getNext t it start).slot (slotHash (getNext t it start).slot) = true := by
+  unfold getNext
+  obtain ⟨h1, h2⟩ := getNextLoop_valid t.slots it (it.limit - start + 1) start
+  unfold HashValid.iterValidInt
+  rw [h1]
+  have hng : ¬ (it.limit > t.size) := by omega
+  simp only [hng, if_false]
+  rcases h2 with ⟨hs, hslot⟩ | ⟨hs, hlt, hocc⟩
+  · rw [hs, hslot]; simp [statusCode]
+  · rw [hs]
+    have := (hh _).mpr hocc
+    simp [statusCode, hlt, this]
+
 end AwsVerif.Proofs.C02
